@@ -182,7 +182,7 @@ def rand_field(rng, mesh, n, nvdim, values=None):
         sigma = rng.permutation(3)
         # component sigma[k] points along axis k
         mapping = {labels[int(sigma[k])]: dims[k] for k in range(3)}
-        mapping = {lab: mapping[lab] for lab in labels}
+        mapping = gen.shuffle_keys(rng, {lab: mapping[lab] for lab in labels})
         f = df.Field(mesh, nvdim=3, value=values, vdims=vdims, vdim_mapping=mapping)
     return f, np.asarray(sigma)
 
